@@ -71,6 +71,7 @@ THEOREMS = [
     'C17_arrives_options',
     'C17_arrives_options_more',
     'C17_arrives_options_arrays',
+    'C17_fill_array_first_entry',
     'C17_surplus_surface_params_exact',
     'C17_fill_array_trailing_numbers',
     'C17_facet_skipped_cells_unchecked',
@@ -99,7 +100,9 @@ ASSUMPTIONS = [
     'the values the model looks at are the 13th transformation entry, the '
     'nappe selector of cones and the point pairs of X/Y/Z surfaces',
     'ASCII input; numeric tokens without underscores, inf or nan; data cards '
-    'use plain numbers, nR and nJ only (no I, M, LOG)',
+    'use plain numbers, nR, nJ, and on cards read as floats (IMP) nI and xM; '
+    'LOG, and nI / xM inside FILL arrays (dtype int: round()), are outside '
+    'the model (executed, skipped by the tie)',
     'surface numbers below 1000 (no implicit TRCL surfaces); LIKE n BUT is '
     'expanded by the harness the way apply_but does (geometry and options of '
     'n followed by the BUT options; no chains generated); lattice cells have '
@@ -1139,11 +1142,11 @@ def _run(res, tier, seed, proofs_ok):
                 toks[-1] = 'r'
             elif how < 0.36 and m > 1:
                 toks[rng.randrange(1, m)] = rng.choice(['j', '2j'])
-            elif how < 0.45 and m > 2:
-                # abbreviations outside the model (the tie skips them, the lines
-                # of expand_data_card are still executed)
+            elif how < 0.6 and m > 2:
+                # nI and xM (modelled on float cards), LOG (outside the model)
                 toks[rng.randrange(1, m - 1)] = rng.choice(
-                    ['2m', '1.5+0m', 'm', 'i', '2i', 'ilog', '2log'])
+                    ['2m', '1.5+0m', 'm', 'i', '2i', '3i', 'ilog', '2log',
+                     '0.5m', 'xm', '0i'])
             elif how < 0.4 and m > 1:
                 # (a first token that is not a number is taken into the card
                 # name by MIP's card splitting: outside the model)
